@@ -89,3 +89,141 @@ def check(run, P, prefixes):
                           "so the element with index 0 is treated as 'no such element'")
     run.holds("IDX/index-truthiness", "no-value-test-on-index-arrays", "uxarray/", f"{n_funcs} functions scanned, positive example matched; no bare any()/all() on an index array")
     run.stats["index_truthiness_functions_scanned"] = n_funcs
+
+
+# ---------------------------------------------------------------------------------------------------------------------------------------
+# SORT/partial-key-adjacency
+#
+# "Find equal records by sorting and comparing neighbours" is only correct when the sort key covers every field that is compared: after
+# `order = np.argsort(K)` equal K-values are adjacent, but two records that agree in K AND in another field X need not be adjacent (any record with the
+# same K and a different X may sit between them - a stable sort keeps the original order inside a K-group, it does not sort by X).  So
+# `np.diff(X[order]) == 0` / `X[order][1:] == X[order][:-1]` with X not part of the key is a contradiction in the code itself: it believes
+# that neighbours in K-order are the only candidates for equality in (K, X).  The rule reports exactly that shape and is silent on everything it does not
+# recognise (contradiction rule): np.lexsort keys, keys built from X (complex `lon + 1j * lat`, structured or scaled sums) and non-equality uses of the
+# neighbours' difference (`np.diff(lat[order]) > tol`) are not matched.
+
+
+def _expand(e, defs, depth=0):
+    """e with single-definition locals substituted, as normalised text"""
+    if depth > 4:
+        return norm(e)
+    if isinstance(e, ast.Name):
+        ds_ = defs.defs.get(e.id, [])
+        if len(ds_) == 1 and ds_[0][1] is None and not ds_[0][2]:
+            return _expand(ds_[0][0], defs, depth + 1)
+        return e.id
+    parts = {}
+    for n in ast.walk(e):
+        if isinstance(n, ast.Name) and n.id not in parts and n.id not in ("np", "numpy"):
+            ds_ = defs.defs.get(n.id, [])
+            if len(ds_) == 1 and ds_[0][1] is None and not ds_[0][2]:
+                parts[n.id] = _expand(ds_[0][0], defs, depth + 1)
+    s = norm(e)
+    import re
+    for k, v in parts.items():
+        s = re.sub(rf"(?<![\w.]){re.escape(k)}(?![\w])", f"({v})", s)
+    return s
+
+
+def _argsort_key(e, defs):
+    """K if e is (a single-definition local bound to) np.argsort(K, ..) / K.argsort(..); else None"""
+    if isinstance(e, ast.Name):
+        ds_ = defs.defs.get(e.id, [])
+        if len(ds_) != 1 or ds_[0][1] is not None or ds_[0][2]:
+            return None
+        e = ds_[0][0]
+    if isinstance(e, ast.Call):
+        d = dotted(e.func)
+        if d and d[-1] == "argsort" and d[0] in ("np", "numpy") and e.args:
+            return e.args[0]
+        if isinstance(e.func, ast.Attribute) and e.func.attr == "argsort" and not (d and d[0] in ("np", "numpy")):
+            return e.func.value
+    return None
+
+
+def _reordered(e, defs, depth=0):
+    """(X, order-expression) if e is X[order] (through single-definition locals and [1:] / [:-1] slices) with `order` an argsort result"""
+    if depth > 4 or e is None:
+        return None
+    if isinstance(e, ast.Name):
+        ds_ = defs.defs.get(e.id, [])
+        if len(ds_) == 1 and ds_[0][1] is None and not ds_[0][2]:
+            return _reordered(ds_[0][0], defs, depth + 1)
+        return None
+    if isinstance(e, ast.Subscript):
+        if isinstance(e.slice, ast.Slice):
+            return _reordered(e.value, defs, depth + 1)
+        if _argsort_key(e.slice, defs) is not None:
+            return e.value, e.slice
+    return None
+
+
+def _is_zero(e):
+    return isinstance(e, ast.Constant) and not isinstance(e.value, (str, bytes, bool)) and e.value == 0
+
+
+def scan_sort_adjacency(fnode):
+    """[(compare node, X text, K text)]: neighbours in argsort(K) order compared for equality in a field X that the key does not contain"""
+    defs = LocalDefs(fnode)
+    out = []
+    for n in ast.walk(fnode):
+        if not (isinstance(n, ast.Compare) and len(n.ops) == 1 and isinstance(n.ops[0], (ast.Eq, ast.NotEq))):
+            continue
+        l, r = n.left, n.comparators[0]
+        hit = None
+        # np.diff(X[order]) == 0
+        for a, b in ((l, r), (r, l)):
+            if _is_zero(b) and isinstance(a, ast.Call) and (dotted(a.func) or [""])[-1] == "diff" and a.args:
+                hit = _reordered(a.args[0], defs)
+        # X[order][1:] == X[order][:-1]
+        if hit is None and isinstance(l, ast.Subscript) and isinstance(r, ast.Subscript) and isinstance(l.slice, ast.Slice) and isinstance(r.slice, ast.Slice):
+            hl, hr = _reordered(l, defs), _reordered(r, defs)
+            if hl and hr and _expand(hl[0], defs) == _expand(hr[0], defs) and norm(l.slice) != norm(r.slice):
+                hit = hl
+        if hit is None:
+            continue
+        x, order = hit
+        key = _argsort_key(order, defs)
+        xs, ks = _expand(x, defs), _expand(key, defs)
+        if xs == ks or xs in ks:
+            continue                      # the compared field is (part of) the key
+        if any(isinstance(c, ast.Call) and (dotted(c.func) or [""])[-1] in ("lexsort", "argsort") for c in ast.walk(key)):
+            continue                      # a derived key: not understood, silent
+        out.append((n, xs, ks))
+    return out
+
+
+_SELFTEST_SORT = '''
+def f(grid, tol):
+    lon, lat = grid.node_lon.values, grid.node_lat.values
+    order = np.argsort(lon, kind="stable")
+    same = (np.diff(lon[order]) == 0) & (np.diff(lat[order]) == 0)
+    lat_s = lat[order]
+    same2 = lat_s[1:] == lat_s[:-1]
+    key = lon + 1j * lat
+    o2 = np.argsort(key)
+    ok = (np.diff(lon[o2]) == 0) & (np.diff(lat[o2]) == 0)
+    o3 = np.lexsort((lat, lon))
+    ok3 = np.diff(lat[o3]) == 0
+    jump = np.diff(lat[order]) > tol
+    return same, same2, ok, ok3, jump
+'''
+
+
+def check_sort_adjacency(run, P, prefixes):
+    st = scan_sort_adjacency(ast.parse(_SELFTEST_SORT).body[0])
+    if len(st) != 2:
+        run.incomplete("SORT/partial-key-adjacency", "rule-self-test", "uxsa/rules/idxlint.py", f"the rule's own example matched {len(st)} sites instead of 2")
+        return
+    n_funcs = n_sorts = 0
+    for f in P.all_functions():
+        if not any(f.module.relpath.startswith(p) for p in prefixes):
+            continue
+        n_funcs += 1
+        n_sorts += sum(1 for c in ast.walk(f.node) if isinstance(c, ast.Call) and (dotted(c.func) or [""])[-1] in ("argsort", "lexsort"))
+        for cmp_, xs, ks in scan_sort_adjacency(f.node):
+            run.violation("SORT/partial-key-adjacency", f"{f.key}:{norm(cmp_)[:60]}", where(f, cmp_),
+                          f"`{norm(cmp_)[:70]}` compares neighbours in the order of argsort(`{ks[:40]}`) for equality in `{xs[:40]}`, which the sort key does not contain: "
+                          "records that agree in both fields are not adjacent when another record with the same key lies between them, so equal records (duplicate nodes) are missed")
+    run.holds("SORT/partial-key-adjacency", "neighbour-equality-only-on-sort-keys", "uxarray/", f"{n_funcs} functions ({n_sorts} argsort/lexsort calls) scanned, positive example matched 2 of its 5 comparisons; no equality test between neighbours on a field outside the sort key")
+    run.stats["sort_adjacency_functions_scanned"] = n_funcs
